@@ -41,6 +41,7 @@ class Model:
         self.out = {}            # (txid, n) -> dict(value, address, spent, conf)
         self.txs = []            # stored transactions: dict(txid, inputs[(txid,n)], outputs[(n, address, value)], raw, sent)
         self.sent_consumed = set()
+        self.anomalies = []      # deviations seen while an event was applied (reported in the reached state)
 
     def unspent(self):
         return {k: v for k, v in self.out.items() if not v['spent']}
@@ -56,6 +57,12 @@ class Model:
 def _apply_tx(model, t, owned_addrs, sent):
     """Advance the ledger with a transaction the wallet stored (inputs consumed, own outputs created)."""
     ins = [(i.prev_txid.hex(), i.output_n_int) for i in t.inputs]
+    if sent:
+        un = model.unspent()
+        bad = [op for op in ins if op not in un]
+        if bad or len(set(ins)) != len(ins):
+            model.anomalies.append({'sig': 'sent_transaction_spends_outpoint_that_is_not_an_unspent_output_of_the_wallet',
+                                    'detail': {'inputs': ins, 'not_unspent': bad}})
     for op in ins:
         if op in model.out:
             model.out[op]['spent'] = True
@@ -95,6 +102,42 @@ def _do_event(w, ev, model, cfg, rec):
             txid = hashlib.sha256(b'c08|utxo|%d|%d' % (seed, model.n_added)).hexdigest()
             w.utxo_add(k.address, value, txid, 0, confirmations=5)
             model.out[(txid, 0)] = {'value': value, 'address': k.address, 'spent': False, 'conf': 5}
+        elif kind == 'utxo_add_n':
+            # ('utxo_add_n', which key, value, funding tx name, output index): several outputs of ONE funding tx
+            _, which, value, name, n = ev
+            keys = [k for k in w.keys(depth=w.key_depth, change=0)] if w.scheme != 'single' else w.keys()
+            if not keys:
+                keys = [w.get_key()]
+            k = keys[0] if which == 'first' else keys[-1]
+            txid = hashlib.sha256(b'c08|fund|%d|%s' % (seed, name.encode())).hexdigest()
+            w.utxo_add(k.address, value, txid, n, confirmations=5)
+            model.out[(txid, n)] = {'value': value, 'address': k.address, 'spent': False, 'conf': 5}
+        elif kind == 'send_pick':
+            # ('send_pick', [positions in the sorted list of unspent outpoints], 'tuple' | 'inputobj')
+            _, idxs, form = ev
+            un = sorted(model.unspent())
+            if max(idxs) >= len(un):
+                return w, 'noop'
+            ops = [un[i] for i in idxs]
+            total = sum(model.out[op]['value'] for op in ops)
+            if form == 'tuple':
+                arr = [(op[0], op[1]) for op in ops]
+            else:
+                objs = w.select_inputs(w.balance(), min_confirms=0)
+                arr = [o for o in objs if (o.prev_txid.hex(), o.output_n_int) in ops]
+                if len(arr) != len(ops):
+                    return w, 'noop'
+            owned = set(_addresses(w))
+            t = w.send([(wh.external_address(8)[0], EXT_AMOUNT)], input_arr=arr, fee=1500, min_confirms=0, broadcast=True)
+            owned |= set(_addresses(w))
+            got = sorted((i.prev_txid.hex(), i.output_n_int) for i in t.inputs)
+            if got != sorted(ops):
+                model.anomalies.append({'sig': 'send_with_explicit_inputs_spends_other_outpoints|%s' % form,
+                                        'detail': {'requested': sorted(ops), 'spent': got}})
+            if t.pushed:
+                _apply_tx(model, t, owned, sent=True)
+            elif getattr(t, 'error', None):
+                return w, 'not_pushed'
         elif kind == 'utxos_update':
             rec.clear()
             w.utxos_update()
@@ -242,6 +285,8 @@ def sub_hist(case):
                 w, lab = _do_event(w, ev, model, cfg, rec)
                 labels.append(lab)
             tag = hist[-1][0] if hist else 'init'
+            for a in model.anomalies:
+                devs.append({'sig': '%s|after_%s' % (a['sig'], tag), 'detail': dict(a['detail'])})
             live = _observe(w)
             devs += _invariants('live', live, model, w, tag)
             w2 = wh.reopen(path)
@@ -367,6 +412,21 @@ def run(ctx):
     for kind, wt in others:
         evs = [e for e in small if not (kind == 'single' and e[0] in ('new_key',))]
         cfgs.append({'kind': kind, 'wt': wt, 'seed': seed, 'events': evs})
+    # several outputs of one funding transaction and explicit input choice: outpoints that share a txid or an index
+    ev_pick = [['send_pick', [0], 'tuple'], ['send_pick', [0, 1], 'tuple'], ['send_pick', [1], 'inputobj'],
+               ['send_pick', [0, 1], 'inputobj'], ['delete_last'], ['sweep'], ['reopen']]
+    fund3 = [['utxo_add_n', 'first', 100000, 'P', 0], ['utxo_add_n', 'last', 70000, 'P', 1],
+             ['utxo_add_n', 'first', 50000, 'Q', 0]]
+    cfgs.append({'kind': 'hd', 'wt': 'segwit', 'seed': seed, 'events': ev_pick, 'prefix': fund3})
+    if not q:
+        cfgs.append({'kind': 'hd', 'wt': 'legacy', 'seed': seed, 'events': ev_pick + [['send_ext'], ['utxos_update']],
+                     'prefix': fund3 + [['utxo_add_n', 'last', 30000, 'Q', 2]]})
+        cfgs.append({'kind': 'ms22', 'wt': 'segwit', 'seed': seed, 'events': ev_pick, 'prefix': fund3})
+    if q:
+        # the nested multisig form (scripts stored with the transaction do not carry the threshold) with a reduced
+        # alphabet; the thorough tier has it with the full one
+        cfgs.append({'kind': 'ms23', 'wt': 'p2sh-segwit', 'seed': seed,
+                     'events': [['utxo_add', 'first', 100000], ['send_ext'], ['sweep'], ['delete_last']]})
     total = ctx.bfs_multi('hist', [(cfg, 3 if q else 4) for cfg in cfgs], max_states=6000 if q else 60000)
     ctx.note('bounds', {'configs': [(c['kind'], c['wt'], len(c['events'])) for c in cfgs], 'depth_quick': 3,
                         'depth_thorough': 4, 'states': total})
